@@ -177,6 +177,8 @@ impl Database {
     }
 
     pub(crate) fn write_response_headers(&mut self, cursor: &mut WriteCursor) -> ResponseInfo {
+        let start = cursor.position();
+
         // first we write events
         let result = self.event_buffer.write_events(cursor);
         let has_events = match result {
@@ -195,7 +197,7 @@ impl Database {
 
         // next write device attributes
         let complete = if complete {
-            self.attrs.write(cursor)
+            self.attrs.write(cursor, cursor.position() == start)
         } else {
             false
         };
